@@ -22,41 +22,76 @@ Qed.
 
 (* ------------------------------------------------------------------ Pool.connect, as generated from the source *)
 
-(* what Pool.connect hands out was created by the calling process, provided the recorded pid is the creator of the pooled
-   connection (which Pool.connect itself establishes) *)
-Lemma pool_connect_own : forall q pc pp fk fresh pc' pp' fk' isnew,
+(* Pool.connect, both ways it can end.  Returned normally: what it hands out was created by the calling process (provided the
+   recorded pid is the creator of the pooled connection, which Pool.connect itself establishes).  Raised out of pool._connect():
+   the pool holds no connection at all afterwards - in particular none created by another process *)
+Lemma pool_connect_cases : forall ok q pc pp fk fresh pc' pp' fk' isnew ok',
   (forall c, pc = Some c -> pp = Some (creator c)) ->
   creator fresh = q ->
-  pool_connect q pc pp fk fresh = (pc', pp', fk', isnew) ->
-  exists c, pc' = Some c /\ creator c = q /\ pp' = Some q
+  pool_connect ok q pc pp fk fresh = (pc', pp', fk', isnew, ok') ->
+  (ok' = true /\ exists c, pc' = Some c /\ creator c = q /\ pp' = Some q
+                          /\ (isnew = true -> c = fresh) /\ (isnew = false -> pc = Some c /\ fk' = fk))
+  \/ (ok' = false /\ ok = false /\ pc' = None).
+Proof.
+  intros ok q pc pp fk fresh pc' pp' fk' isnew ok' Hinv Hfresh H. unfold pool_connect in H.
+  destruct pc as [c1|].
+  - destruct (optz_eqb pp (Some q)) eqn:E; cbn in H.
+    + inversion H; subst; clear H. left. split; [reflexivity|].
+      apply optz_eqb_some in E. specialize (Hinv c1 eq_refl). rewrite E in Hinv. inversion Hinv as [Hc].
+      exists c1. repeat split; auto; try discriminate.
+    + destruct ok; inversion H; subst; clear H.
+      * left. split; [reflexivity|]. exists fresh. repeat split; auto; discriminate.
+      * right. auto.
+  - destruct ok; inversion H; subst; clear H.
+    + left. split; [reflexivity|]. exists fresh. repeat split; auto; discriminate.
+    + right. auto.
+Qed.
+
+Lemma pool_connect_own : forall q pc pp fk fresh pc' pp' fk' isnew ok',
+  (forall c, pc = Some c -> pp = Some (creator c)) ->
+  creator fresh = q ->
+  pool_connect true q pc pp fk fresh = (pc', pp', fk', isnew, ok') ->
+  ok' = true /\ exists c, pc' = Some c /\ creator c = q /\ pp' = Some q
             /\ (isnew = true -> c = fresh) /\ (isnew = false -> pc = Some c /\ fk' = fk).
 Proof.
-  intros q pc pp fk fresh pc' pp' fk' isnew Hinv Hfresh H. unfold pool_connect in H.
-  destruct pc as [c1|].
-  - destruct (optz_eqb pp (Some q)) eqn:E; cbn in H; inversion H; subst; clear H.
-    + apply optz_eqb_some in E. specialize (Hinv c1 eq_refl). rewrite E in Hinv. inversion Hinv as [Hc].
-      exists c1. repeat split; auto; try discriminate.
-    + exists fresh. repeat split; auto; discriminate.
-  - inversion H; subst. exists fresh. repeat split; auto; discriminate.
+  intros q pc pp fk fresh pc' pp' fk' isnew ok' Hinv Hfresh H.
+  destruct (pool_connect_cases true q pc pp fk fresh pc' pp' fk' isnew ok' Hinv Hfresh H) as [R|[_ [Hf _]]]; [exact R|discriminate Hf].
+Qed.
+
+(* a failed connect leaves the pool without a connection, whatever it held before (also an inherited one) *)
+Lemma pool_connect_failed : forall ok q pc pp fk fresh pc' pp' fk' isnew,
+  pool_connect ok q pc pp fk fresh = (pc', pp', fk', isnew, false) -> pc' = None.
+Proof.
+  intros ok q pc pp fk fresh pc' pp' fk' isnew H. unfold pool_connect in H.
+  destruct pc as [c1|]; [destruct (optz_eqb pp (Some q)); cbn in H|]; destruct ok; inversion H; reflexivity.
 Qed.
 
 (* in the child of a fork the inherited pooled connection is never handed out: it is parked in forked_connections *)
 Lemma pool_connect_after_fork : forall q p c fk fresh,
   p <> q ->
-  pool_connect q (Some c) (Some p) fk fresh = (Some fresh, Some q, fk ++ [(c, Some p)], true).
+  pool_connect true q (Some c) (Some p) fk fresh = (Some fresh, Some q, fk ++ [(c, Some p)], true, true).
 Proof.
   intros q p c fk fresh Hne. unfold pool_connect. cbn.
   destruct (p =? q) eqn:E; [apply Z.eqb_eq in E; contradiction|reflexivity].
 Qed.
 
-(* in the process that created it the pooled connection is reused; nothing is created *)
-Lemma pool_connect_same_process : forall q c fk fresh,
-  pool_connect q (Some c) (Some q) fk fresh = (Some c, Some q, fk, false).
-Proof. intros q c fk fresh. unfold pool_connect. cbn. rewrite Z.eqb_refl. reflexivity. Qed.
+(* ... and if that first connect of the child fails, the inherited connection is parked all the same and the pool is empty *)
+Lemma pool_connect_after_fork_failing : forall q p c fk fresh,
+  p <> q ->
+  pool_connect false q (Some c) (Some p) fk fresh = (None, None, fk ++ [(c, Some p)], false, false).
+Proof.
+  intros q p c fk fresh Hne. unfold pool_connect. cbn.
+  destruct (p =? q) eqn:E; [apply Z.eqb_eq in E; contradiction|reflexivity].
+Qed.
+
+(* in the process that created it the pooled connection is reused; nothing is created (and nothing can fail) *)
+Lemma pool_connect_same_process : forall ok q c fk fresh,
+  pool_connect ok q (Some c) (Some q) fk fresh = (Some c, Some q, fk, false, true).
+Proof. intros ok q c fk fresh. unfold pool_connect. cbn. rewrite Z.eqb_refl. reflexivity. Qed.
 
 (* pool.pid is never read while unset (SQLitePool.__init__ does not set it): it is read only when pool.con is not None *)
 Lemma pool_connect_unset_pid_not_read : forall q fk fresh pp,
-  pool_connect q None pp fk fresh = (Some fresh, Some q, fk, true).
+  pool_connect true q None pp fk fresh = (Some fresh, Some q, fk, true, true).
 Proof. reflexivity. Qed.
 
 (* ------------------------------------------------------------------ invariant of one process *)
@@ -107,14 +142,29 @@ Proof.
     + destruct (Hc k eq_refl) as [Hpc Hcr].
       split; [unfold add; cbn; apply Hjj; auto; intros Hx; discriminate Hx|].
       exists [EUse q k]. split; [reflexivity|]. constructor; [exact Hcr|constructor].
-    + destruct (pool_connect q pc pp fk (q, sr + 1)) as [[[pc' pp'] fk'] isnew] eqn:E.
-      destruct (pool_connect_own q pc pp fk (q, sr + 1) pc' pp' fk' isnew Hpool eq_refl E) as [k [-> [Hcr [-> [Hnew Hold]]]]].
+    + destruct (pool_connect true q pc pp fk (q, sr + 1)) as [[[[pc' pp'] fk'] isnew] ok'] eqn:E.
+      destruct (pool_connect_own q pc pp fk (q, sr + 1) pc' pp' fk' isnew ok' Hpool eq_refl E) as [_ [k [-> [Hcr [-> [Hnew Hold]]]]]].
       split.
       * apply mkJ; cbn; [reflexivity| | |intros Hx; discriminate Hx].
         -- intros x Hx; inversion Hx; subst x; split; [reflexivity|exact Hcr].
         -- intros x Hx; inversion Hx; subst x. rewrite Hcr; reflexivity.
       * eexists; split; [reflexivity|].
         apply Forall_app; split; [destruct isnew; constructor; [exact Hcr|constructor]|constructor; [exact Hcr|constructor]].
+  - (* OQueryFail *)
+    destruct d as [|d]; [split; [apply Hjj; auto|nolog]|].
+    destruct cc as [k|].
+    + destruct (Hc k eq_refl) as [Hpc Hcr].
+      split; [unfold add; cbn; apply Hjj; auto; intros Hx; discriminate Hx|].
+      exists [EUse q k]. split; [reflexivity|]. constructor; [exact Hcr|constructor].
+    + destruct (pool_connect false q pc pp fk (q, sr + 1)) as [[[[pc' pp'] fk'] isnew] ok'] eqn:E.
+      destruct (pool_connect_cases false q pc pp fk (q, sr + 1) pc' pp' fk' isnew ok' Hpool eq_refl E)
+        as [[-> [k [-> [Hcr [-> _]]]]]|[-> [_ ->]]].
+      * split.
+        -- apply mkJ; cbn; [reflexivity| | |intros Hx; discriminate Hx].
+           ++ intros x Hx; inversion Hx; subst x; split; [reflexivity|exact Hcr].
+           ++ intros x Hx; inversion Hx; subst x. rewrite Hcr; reflexivity.
+        -- eexists; split; [reflexivity|]. constructor; [exact Hcr|constructor].
+      * split; [|nolog]. apply mkJ; cbn; [reflexivity| | |reflexivity]; intros x Hx; discriminate Hx.
   - (* OEnd *)
     destruct d as [|[|d]].
     + split; [apply Hjj; auto|nolog].
@@ -155,9 +205,15 @@ Proof.
     destruct s as [p pc pp fk cc d sr lg]; cbn in Hp, Hpool0, Hown; subst p.
     destruct o; cbn in Hop; try discriminate; cbn [step pid pcon ppid forked ccon depthc serial log]; auto.
     + destruct d as [|d]; [exact Hown|]. destruct cc as [k|]; [unfold add; cbn; exact Hown|].
-      destruct (pool_connect q pc pp fk (q, sr + 1)) as [[[pc' pp'] fk'] isnew] eqn:E.
-      destruct (pool_connect_own q pc pp fk (q, sr + 1) pc' pp' fk' isnew Hpool0 eq_refl E) as [k [-> [Hcr _]]].
+      destruct (pool_connect true q pc pp fk (q, sr + 1)) as [[[[pc' pp'] fk'] isnew] ok'] eqn:E.
+      destruct (pool_connect_own q pc pp fk (q, sr + 1) pc' pp' fk' isnew ok' Hpool0 eq_refl E) as [_ [k [-> [Hcr _]]]].
       cbn. intros x Hx; inversion Hx; subst x; exact Hcr.
+    + destruct d as [|d]; [exact Hown|]. destruct cc as [k|]; [unfold add; cbn; exact Hown|].
+      destruct (pool_connect false q pc pp fk (q, sr + 1)) as [[[[pc' pp'] fk'] isnew] ok'] eqn:E.
+      destruct (pool_connect_cases false q pc pp fk (q, sr + 1) pc' pp' fk' isnew ok' Hpool0 eq_refl E)
+        as [[-> [k [-> [Hcr _]]]]|[-> [_ ->]]]; cbn.
+      * intros x Hx; inversion Hx; subst x; exact Hcr.
+      * intros x Hx; discriminate Hx.
     + destruct d as [|[|d]]; [exact Hown| |exact Hown]. destruct cc; cbn; exact Hown.
     + destruct cc as [k|]; [|exact Hown]. destruct pc as [k'|]; cbn; [|intros x Hx; discriminate Hx].
       destruct (conn_eqb k k'); cbn; [intros x Hx; discriminate Hx|exact Hown].
@@ -275,3 +331,20 @@ Lemma live_session_witness :
   /\ log (run (fork par 2) [OQuery; OEnd]) = [EUse 2 (1, 1); EUse 2 (1, 1); EUse 2 (1, 1)]
   /\ forallb (ownb 2) (log (run (fork par 2) [OQuery; OEnd])) = false.
 Proof. vm_compute. repeat split; reflexivity. Qed.
+
+(* the child's first connect attempt after the fork fails, the child tries again: the retry opens the child's own connection;
+   the inherited one was parked at the failed attempt and is neither used nor handed out *)
+Theorem child_failed_first_connect : forall p q parent_ops c,
+  p <> q ->
+  let par := run (init p) parent_ops in
+  ccon par = None -> pcon par = Some c ->
+  let ch := run (fork par q) [OBegin; OQueryFail] in
+  pcon ch = None /\ ccon ch = None /\ log ch = [] /\ forked ch = forked par ++ [(c, Some p)]
+  /\ log (run ch [OQuery]) = [ECreate q (q, serial par + 1); EUse q (q, serial par + 1)].
+Proof.
+  intros p q pops c Hne par Hnone Hpc.
+  destruct (run_K p pops (init p) (J_init p)) as [[(Hp & _ & Hpool & _) Hown] _]. fold par in Hp, Hpool, Hown.
+  pose proof (Hpool c Hpc) as Hpp. rewrite (Hown c Hpc) in Hpp.
+  unfold run, fork; cbn [fold_left step pid pcon ppid forked ccon depthc serial log]. rewrite Hnone, Hpc, Hpp.
+  rewrite (pool_connect_after_fork_failing q p c _ _ Hne). cbn. repeat split; reflexivity.
+Qed.
